@@ -167,6 +167,23 @@ def correspond(ctx):
 
 # ---------------------------------------------------------------------------
 
+SNAP_SIG = 'Path.cropped/both ends snapped past each other at one joint'
+
+
+def _snapped_across(path, T0, T1):
+    """T0 < T1 lie so close to one joint that Path.cropped's np.isclose snapping (t ~ 1 -> start of the next segment, t ~ 0 -> end of
+    the previous one) moves them past each other"""
+    try:
+        k0, t0 = path.T2t(T0)
+        k1, t1 = path.T2t(T1)
+        n = len(path)
+        i0 = (k0 + 1) % n if np.isclose(t0, 1) else k0
+        i1 = (k1 - 1) % n if np.isclose(t1, 0) else k1
+        return T0 < T1 and (np.isclose(t0, 1) or np.isclose(t1, 0)) and (i0 > i1 or (i0 == i1 and np.isclose(t0, 1) and np.isclose(t1, 0)))
+    except Exception:
+        return False
+
+
 def sample(ctx, budget=1.0, hint=None, broken=None):
     spt = ctx.spt
     P = spt.path
@@ -286,6 +303,19 @@ def sample(ctx, budget=1.0, hint=None, broken=None):
         if len(samples) < 2:
             samples.append({'seg': desc, 't': t, 't0': t0, 't1': t1})
 
+    # the recorded witness of finding F38, re-examined on every run
+    wp_ = P.Path(P.Line(0j, 1j), P.Line(1j, 2 + 1j), P.Line(2 + 1j, 2 - 1j), P.Line(2 - 1j, 2 - 3j), P.Line(2 - 3j, 4 - 3j), P.Line(4 - 3j, 0j))
+    n_eval += 1
+    try:
+        Lw_ = wp_.length()
+        bw_ = sum(sg_.length() for sg_ in wp_[:3]) / Lw_
+        wT0_, wT1_ = bw_ - 1e-10, bw_ + 1e-10
+        cw_ = wp_.cropped(wT0_, wT1_)
+        if abs(cw_.length() - wp_.length(wT0_, wT1_)) > 1e-6 * (Lw_ + 1):
+            fail(SNAP_SIG, 'cropped(T0, T1) with T0 < T1 both within 1e-8 (in t) of the same joint returns two whole segments in the wrong order', {'path': repr(wp_).replace('\n', ' '), 'T0': wT0_, 'T1': wT1_},
+                 repr(cw_)[:300], 'a piece of length %r' % wp_.length(wT0_, wT1_), 'svgpathtools.%s.cropped(%r, %r)' % (repr(wp_).replace('\n', ' '), wT0_, wT1_))
+    except Exception as e:
+        fail('Path.cropped/raises', 'Path.cropped raised %s' % type(e).__name__, {'path': 'witness of F38'}, repr(e)[:200], 'a path')
     # paths
     for it in range(int(ctx.n(80, 800) * budget)):
         n = r.randint(1, 5)
@@ -378,6 +408,13 @@ def sample(ctx, budget=1.0, hint=None, broken=None):
         except AssertionError:
             continue   # Arc.length asserts 0<=t<=1; T2t may return 1+ulp (C05/C06 rounding gap)
         rep = 'svgpathtools.%s.cropped(%r, %r)' % (desc, T0, T1)
+        if not wrap and _snapped_across(path, T0, T1):
+            # finding F38: both ends within np.isclose of ONE joint; the real method snaps T0 forward and T1 backward past each other
+            if abs(cp.length() - want_len) > 1e-6 * (L + 1) or any(abs(x.end - y.start) > tol for x, y in zip(cp, list(cp)[1:])):
+                fail(SNAP_SIG, 'cropped(T0, T1) with T0 < T1 both within 1e-8 (in t) of the same joint returns two whole segments in the wrong order: the end at T0 is '
+                     'snapped FORWARD onto the joint and the end at T1 BACKWARD onto it, so they pass each other', {'path': desc, 'T0': T0, 'T1': T1}, repr(cp)[:300],
+                     'a piece of length %r' % want_len, rep)
+            continue
         if abs(cp.point(0) - path.point(T0)) > tol or abs(cp.point(1) - path.point(T1)) > tol:
             fail('Path.cropped/ends', 'cropped(T0,T1) does not start at point(T0) / end at point(T1)', {'path': desc, 'T0': T0, 'T1': T1},
                  repr((cp.point(0), cp.point(1))), repr((path.point(T0), path.point(T1))), rep)
